@@ -282,6 +282,11 @@ def main_c11(tier, seed, rng, quick, t0, replay_path):
         if i % 3 == 0:
             sc.description = 'multi\nline: "desc" # %d' % i
             sc._preamble = 'x = 0\ny = "é: [1, 2]"'
+        if i % 5 == 1:      # Windows line endings / unusual separators inside multi-line strings
+            sc.description = 'first\r\nsecond\u2028third\ttab'
+            sc._preamble = 'x = 0\r\nbox = [[]]\r\ny = 2'
+            st0 = sc.state_for(sorted(sc.states)[0])
+            st0.on_exit = (st0.on_exit or 'pass') + '\r\nz = "\x1b[0m"'
         ln, text = roundtrip_line(sc, i + 1)
         lines.append(ln)
         info.append({'chart': c, 'pool': pool, 'variant': variant, 'yaml': text})
